@@ -305,6 +305,16 @@ class HistExec(object):
     def holders_fn(self):
         self.round += 1
         k = self.round
+        # "each interval": a round starts no later than one interval (+ the wait budget of the previous round) after
+        # the previous one started
+        now = self.w.clock.now
+        prev = getattr(self, 'round_started', None)
+        if prev is not None and now - prev > INTERVAL + TIMEOUT + 0.1:
+            self.problem('interval-length', 'round %d started %.3f s after round %d (interval %.0f s, timeout %.0f s)' % (
+                k, now - prev, k - 1, INTERVAL, TIMEOUT))
+        if prev is None and now - self.t0 > INTERVAL + 0.1:
+            self.problem('interval-length', 'first round started %.3f s after the thread (interval %.0f s)' % (now - self.t0, INTERVAL))
+        self.round_started = now
         if k >= 1:
             self.judge_round(k - 1)
         if k > self.nrounds:
@@ -509,10 +519,10 @@ class HistExec(object):
                 self.setup()
                 self.spec_of = {c.vid: s for c, s in zip(self.conns, specs)}
                 srv.script = self.script
+                self.t0 = t0 = w.clock.now
                 self.hb = hb = HarnessHeartbeat(self, INTERVAL, self.holders_fn, TIMEOUT)
                 if hb not in w.thread_tasks:
                     raise HarnessError('heartbeat thread was not started')
-                t0 = w.clock.now
                 try:
                     w.run_thread_task(list(w.thread_tasks).index(hb))   # ConnectionHeartbeat.run in this thread of control
                 except vthreading.WouldBlock as e:
